@@ -120,4 +120,106 @@ theorem C02_npda_stepwise (M : NPDA σ α γ) (m : AccMode) (hm : M.mode = m.lit
   · rw [hout, S.fuelOut, hlen]; omega
   · rw [hout]; exact S.onlyRej
 
+/-- **An NPDA accepts a string exactly when some sequence of its moves consumes the whole
+string and ends in an accepting configuration, the start configuration included** (`k = 0`).
+"Accepts" = the reader returns for some fuel; by `C02_npda_fuel_monotone` it then returns for
+every larger fuel. -/
+theorem C02_npda_accept_iff (M : NPDA σ α γ) (m : AccMode) (hm : M.mode = m.literal) (w : List α) :
+    (∃ fuel, (M.readStepwise fuel w).2 = .returned) ↔
+      ∃ k c, StepN M.moves k (M.start w) c ∧ Accepting m M.finals c := by
+  constructor
+  · rintro ⟨fuel, h⟩
+    obtain ⟨_, _, _, hd, _⟩ := C02_npda_stepwise M m hm fuel w
+    obtain ⟨_, c, hc, ha⟩ := hd.mp h
+    exact ⟨_, c, hc, ha⟩
+  · rintro ⟨k, c, hc, ha⟩
+    refine ⟨k + 1, ?_⟩
+    obtain ⟨_, hb, hcc, hd, he, hf, hg⟩ := C02_npda_stepwise M m hm (k + 1) w
+    cases hout : (M.readStepwise (k + 1) w).2 with
+    | returned => rfl
+    | outOfFuel =>
+      have hl := hf.mp hout
+      exact absurd ha ((hcc k (by omega)).2 c hc)
+    | raised e =>
+      obtain rfl := hg e hout
+      obtain ⟨hl, hne⟩ := he.mp hout
+      exact absurd (stepN_prefix hc _ (by omega)) hne
+
+/-- An NPDA rejects (the reader raises `RejectionException` for some fuel) exactly when all
+runs die out — some level is empty — and no reachable configuration is accepting. -/
+theorem C02_npda_reject_iff (M : NPDA σ α γ) (m : AccMode) (hm : M.mode = m.literal) (w : List α) :
+    (∃ fuel, (M.readStepwise fuel w).2 = .raised (.lib .rejectionException)) ↔
+      (∃ k, ∀ c, ¬ StepN M.moves k (M.start w) c) ∧
+      ¬ ∃ k c, StepN M.moves k (M.start w) c ∧ Accepting m M.finals c := by
+  constructor
+  · rintro ⟨fuel, h⟩
+    obtain ⟨_, hb, hcc, _, he, _⟩ := C02_npda_stepwise M m hm fuel w
+    obtain ⟨hl, hne⟩ := he.mp h
+    refine ⟨⟨_, fun c hc => hne ⟨c, hc⟩⟩, ?_⟩
+    rintro ⟨k, c, hc, ha⟩
+    rcases Nat.lt_or_ge (k + 1) (M.readStepwise fuel w).1.length with hlt | hge
+    · exact (hcc k hlt).2 c hc ha
+    · exact hne (stepN_prefix hc _ (by omega))
+  · rintro ⟨⟨k, hk⟩, hna⟩
+    refine ⟨k + 1, ?_⟩
+    obtain ⟨_, hb, hcc, hd, he, hf, hg⟩ := C02_npda_stepwise M m hm (k + 1) w
+    cases hout : (M.readStepwise (k + 1) w).2 with
+    | returned =>
+      obtain ⟨_, c, hc, ha⟩ := hd.mp hout
+      exact absurd ⟨_, c, hc, ha⟩ hna
+    | outOfFuel =>
+      have hl := hf.mp hout
+      obtain ⟨c, hc⟩ := (hcc k (by omega)).1
+      exact absurd hc (hk c)
+    | raised e => rw [hg e hout]
+
+/-- Fuel only matters for undecided runs: once the reader has returned or raised, more
+fuel gives the same yields and the same outcome. -/
+theorem C02_npda_fuel_monotone (M : NPDA σ α γ) (fuel fuel' : Nat) (w : List α)
+    (h : (M.readStepwise fuel w).2 ≠ .outOfFuel) (hle : fuel ≤ fuel') :
+    M.readStepwise fuel' w = M.readStepwise fuel w :=
+  M.readStepwise_mono fuel fuel' w h hle
+
+/-- The property's quantifier "tables whose epsilon-moves cannot run forever": if all runs on
+`w` die out (some level is empty), the reader decides `w`, and its verdict is `accept` iff an
+accepting configuration is reachable. -/
+theorem C02_npda_decides (M : NPDA σ α γ) (m : AccMode) (hm : M.mode = m.literal) (w : List α)
+    (hfin : ∃ k, ∀ c, ¬ StepN M.moves k (M.start w) c) :
+    ∃ fuel b, acceptsInput (M.readStepwise fuel w) = some (.ok b) ∧
+      (b = true ↔ ∃ k c, StepN M.moves k (M.start w) c ∧ Accepting m M.finals c) := by
+  by_cases hA : ∃ k c, StepN M.moves k (M.start w) c ∧ Accepting m M.finals c
+  · obtain ⟨fuel, h⟩ := (C02_npda_accept_iff M m hm w).mpr hA
+    refine ⟨fuel, true, ?_, by simp [hA]⟩
+    simp only [acceptsInput, readInput, h]
+    cases hl : (M.readStepwise fuel w).1.getLast? with
+    | some L => rfl
+    | none => simp [NPDA.readStepwise] at hl
+  · obtain ⟨fuel, h⟩ := (C02_npda_reject_iff M m hm w).mpr ⟨hfin, hA⟩
+    exact ⟨fuel, false, by simp [acceptsInput, readInput, h], by simp [hA]⟩
+
+/-- `accepts_input` / `read_input` of an NPDA: True with the last yielded set when the reader
+returns, False / `RejectionException` when it raises, and never another exception. -/
+theorem C02_npda_accepts_input (M : NPDA σ α γ) (fuel : Nat) (w : List α) :
+    (acceptsInput (M.readStepwise fuel w) = some (.ok true) ↔ (M.readStepwise fuel w).2 = .returned) ∧
+    (acceptsInput (M.readStepwise fuel w) = some (.ok false) ↔
+      (M.readStepwise fuel w).2 = .raised (.lib .rejectionException)) ∧
+    (acceptsInput (M.readStepwise fuel w) = none ↔ (M.readStepwise fuel w).2 = .outOfFuel) ∧
+    (∀ e, acceptsInput (M.readStepwise fuel w) ≠ some (.error e)) ∧
+    ((M.readStepwise fuel w).2 = .returned →
+      readInput (M.readStepwise fuel w) = (M.readStepwise fuel w).1.getLast?.map .ok) := by
+  have hne : (M.readStepwise fuel w).1.getLast? ≠ none := by simp [NPDA.readStepwise]
+  have hrej : ∀ e, (M.readStepwise fuel w).2 = .raised e → e = .lib .rejectionException := by
+    intro e he
+    have S := M.run_spec (M.start w) fuel 0 [M.start w] (by intro c; simp [stepN_zero_iff])
+    exact S.onlyRej e he
+  cases hout : (M.readStepwise fuel w).2 with
+  | outOfFuel => simp [acceptsInput, readInput, hout]
+  | raised e =>
+    obtain rfl := hrej e hout
+    simp [acceptsInput, readInput, hout]
+  | returned =>
+    cases hl : (M.readStepwise fuel w).1.getLast? with
+    | none => exact absurd hl hne
+    | some L => simp [acceptsInput, readInput, hout, hl]
+
 end AV.Props.C02
